@@ -938,6 +938,12 @@ func (x *wfExec) buildFuncLeaf(id int, l *LeafSpec, n int, w time.Duration) flyt
 	return flyt.NewNode(opts...)
 }
 
+// runaway: the executor's own termination device fired (every post answers "halt" once the fuel
+// is used up, and "halt" is never connected). That presumes that flows route on the actions their
+// members present (C03) and that an inner flow presents its last node's action (C10); checks of
+// other properties treat it as "scenario could not be carried out", not as their violation.
+func runaway(p string) bool { return strings.Contains(p, "runaway flow") }
+
 // runResult is what one run of the root produced.
 type runResult struct {
 	Action flyt.Action
